@@ -1171,7 +1171,7 @@ fn cmd_codec_random(args: &[String]) {
 /// args: n  -> JSON list of n small contents, ascending by BLAKE3, the smallest hash starting with a 0 nibble
 fn cmd_gen_contents(args: &[String]) {
     let n: usize = args[0].parse().unwrap();
-    let mut cands: Vec<(String, String)> = (0..400).map(|k| { let t = format!("version {k}\n"); (vlib_hex(blake3::hash(t.as_bytes()).as_bytes()), t) }).collect();
+    let mut cands: Vec<(String, String)> = (0..400).map(|k| { let t = format!("version {k:04}\n"); (vlib_hex(blake3::hash(t.as_bytes()).as_bytes()), t) }).collect();
     cands.sort();
     // first: a hash with a leading zero nibble; then spread the rest over the range
     let mut out = vec![cands.iter().find(|c| c.0.starts_with('0') && !c.0.starts_with("00")).unwrap().clone()];
